@@ -7,7 +7,12 @@ import (
 	"io"
 	"os"
 
+	"github.com/dgraph-io/badger/v4"
 	"github.com/gofrs/uuid/v5"
+	"github.com/ostafen/clover/v2/store"
+	cbadger "github.com/ostafen/clover/v2/store/badger"
+	cbolt "github.com/ostafen/clover/v2/store/bbolt"
+	_ "github.com/ostafen/clover/v2/zzverif/libstub"
 	"github.com/ostafen/clover/v2/index"
 	"github.com/ostafen/clover/v2/zzverif/codec"
 	"github.com/ostafen/clover/v2/zzverif/memstore"
@@ -179,3 +184,15 @@ func writeRawFile(path string, wellFormed bool) {
 }
 
 func setUnreadable(path string) { delete(vfs, path); vfsFailOpen = true }
+
+// openAdapter opens one of clover's real store adapters; in engine mode the library below it is the contract stub.
+func openAdapter(backend int) store.Store {
+	if backend == 0 {
+		st, err := cbolt.Open("dbdir")
+		nd.Assert("setup.open-bbolt", err == nil)
+		return st
+	}
+	st, err := cbadger.OpenWithOptions(badger.DefaultOptions("").WithInMemory(true))
+	nd.Assert("setup.open-badger", err == nil)
+	return st
+}
